@@ -124,12 +124,15 @@ pub fn apply_action(lib: &BTreeMap<String, String>, key: &str, line: usize, kind
     r
 }
 
-fn line_of_words(text: &str, words: &str) -> Option<usize> {
+/// the line of the block that holds these words; when several blocks hold the same words (two headings that are both
+/// just "-"), the one nearest to `near` - the converted block stays where the heading was
+fn line_of_words(text: &str, words: &str, near: usize) -> Option<usize> {
     let scan = mdscan::scan(text);
     scan.atoms
         .iter()
-        .find(|a| a.text.split_whitespace().collect::<Vec<_>>().join(" ") == words)
+        .filter(|a| a.text.split_whitespace().collect::<Vec<_>>().join(" ") == words)
         .map(|a| a.line)
+        .min_by_key(|l| (*l as i64 - near as i64).abs())
 }
 
 impl Check for Refactor {
@@ -585,7 +588,7 @@ fn round_trip(
             let adjacent = (hi > 0 && is_list(&top[hi - 1])) || (end < top.len() && is_list(&top[end]));
             if adjacent { rep.count("round_trips:skipped-adjacent-list", 1); return v; }
             let words = top[hi].text.split_whitespace().collect::<Vec<_>>().join(" ");
-            let Some(l2) = line_of_words(&after[key], &words) else { return v };
+            let Some(l2) = line_of_words(&after[key], &words, line) else { return v };
             rep.count("round_trips:section-list-section", 1);
             // does the section have a preceding sibling section? (open finding KF-section-list-nesting)
             let has_prev_sibling = top[..hi].iter().rev().find_map(|a| if !a.chain.is_empty() { None } else if let AKind::Heading(l) = a.kind { if l < lvl { Some(false) } else if l == lvl { Some(true) } else { None } } else { None }).unwrap_or(false);
